@@ -28,7 +28,7 @@ def one(drv, mode, ops_file):
         r = subprocess.run(args, stdin=fin, stdout=fout, stderr=subprocess.PIPE, text=True, timeout=600)
     if r.returncode != 0:
         return (ops_file, 0, "driver failed: " + r.stderr[-500:])
-    a = [l.rstrip("\n") for l in open(impl) if not l.startswith("# ")]
+    a = [l.rstrip("\n") for l in open(impl, errors="replace") if not l.startswith("# ")]
     b = [l.rstrip("\n") for l in open(base + ".model")]
     n = 0
     for x, y in zip(a, b):
